@@ -1,7 +1,13 @@
 (* C05 — one-operand functions and closure iteration keep shape, order, multiplicity.
    A caller's closure with captured mutable state is a state-passing function f : S -> nat -> T -> S * U
-   (state, flat position, element); run_closure threads the state through the elements. *)
-From ArrRs Require Import Index Axis Lift Lift_proofs.
+   (state, flat position, element); run_closure threads the state through the elements.
+   frexp / ldexp are modelled on exact dyadic values m * 2^e (Dyadic.v): PROVED — decomposition recombines to the
+   original value, the mantissa lies in [1/2, 1), the exponent does not depend on the representation, both act
+   position by position on arrays.  MODELLED, NOT PROVED: that the f64 halving/doubling loops of floating.rs compute
+   these exact values whenever the result is a double (checked per case, bit-exactly, by the correspondence check over
+   every binade); the float bodies of the other one-operand functions (compared with the implementation's own scalar
+   call at the label the model places at each position). *)
+From ArrRs Require Import Index Axis Lift Lift_proofs Dyadic Dyadic_proofs.
 
 (* mapping a function: same shape, at every position the function of the input element at that position *)
 Theorem C05_map : forall (T U : Type) (f : T -> U) (a : arr T),
@@ -33,6 +39,39 @@ Proof. exact @filter_pure_spec. Qed.
 Theorem C05_fold : forall (T U : Type) (f : U -> T -> U) init (a : arr T),
   fold_arr f init a = fold_left f (elems a) init.
 Proof. exact @fold_arr_spec. Qed.
+
+(* mantissa / exponent decomposition recombines to the original value *)
+Theorem C05_frexp_recombines : forall x : dy, fst x <> 0%Z -> ldexp_d (fst (frexp_d x)) (snd (frexp_d x)) = x.
+Proof. exact frexp_ldexp. Qed.
+
+Theorem C05_frexp_recombines_canonical : forall x : dy,
+  canon (ldexp_d (canon (fst (frexp_d x))) (snd (frexp_d x))) = canon x.
+Proof. exact frexp_ldexp_canon. Qed.
+
+(* the mantissa m * 2^(-b) lies in [1/2, 1): 2^(b-1) <= |m| < 2^b *)
+Theorem C05_frexp_range : forall m e, m <> 0%Z ->
+  let b := (Z.log2 (Z.abs m) + 1)%Z in
+  frexp_d (m, e) = ((m, (- b)%Z), (b + e)%Z) /\ (2 ^ (b - 1) <= Z.abs m < 2 ^ b)%Z.
+Proof. exact frexp_range. Qed.
+
+Theorem C05_frexp_value_only : forall m e, m <> 0%Z -> snd (frexp_d (canon (m, e))) = snd (frexp_d (m, e)).
+Proof. exact frexp_canon. Qed.
+
+Theorem C05_frexp_array : forall a : arr dy, wf a ->
+  frexp_arr a = Ok (mk (map (fun x => fst (frexp_e x)) (elems a)) (shape a),
+                    mk (map (fun x => snd (frexp_e x)) (elems a)) (shape a)).
+Proof. exact frexp_arr_spec. Qed.
+
+Theorem C05_frexp_elem : forall x, is_special x = false -> frexp_e x = (canon (fst (frexp_d x)), snd (frexp_d x)).
+Proof. exact frexp_e_finite. Qed.
+
+Theorem C05_ldexp_elem : forall x k, is_special x = false -> ldexp_e x k = canon (ldexp_d x k).
+Proof. exact ldexp_e_finite. Qed.
+
+Example C05_frexp_nonvacuous :
+  frexp_d (3, -1074)%Z = ((3, -2), -1072)%Z /\ frexp_d (9007199254740991, 971)%Z = ((9007199254740991, -53), 1024)%Z /\
+  canon (12, 5)%Z = (3, 7)%Z.
+Proof. repeat split; vm_compute; reflexivity. Qed.
 
 Example C05_nonvacuous :
   run_closure (fun s k x => (s ++ [(k, x)], (x * 2)%Z)) [] 0 [5;6;7]%Z = ([(0,5%Z);(1,6%Z);(2,7%Z)], [10;12;14]%Z).
